@@ -113,7 +113,7 @@ SPEC = {
           ("AppProof", "C13_open_first_run", "C13_open_first_run", None),
           ("RecvProof", "recv_frame_call", "C13_no_hidden_bytes", "promptness, structural part: after every frame returned the parser holds no bytes (fb' = fb_init in call_post), so a complete frame is never left undelivered inside the library while the loop blocks in select")]),
  "C14": dict(title="C14 — run_forever always terminates; on_close fires once, last, with the close reason.",
-   imports="Base.Res Base.Bytes Spec.Frame Spec.Legal Spec.AppTrace Gen.GenAbnf Model.Recv Model.Conn Model.App Proofs.RecvSpec Proofs.ConnSpec Proofs.ConnProof Proofs.AppProof",
+   imports="Base.Res Base.Bytes Spec.Frame Spec.Legal Spec.AppTrace Gen.GenAbnf Gen.GenApp Model.Recv Model.Conn Model.App Proofs.RecvSpec Proofs.ConnSpec Proofs.ConnProof Proofs.AppProof Proofs.AppGen",
    items=[("AppProof", "C14_close_once", "C14_close_once", "for EVERY configuration (raising, closing, interrupting callbacks) and EVERY environment: exactly one on_close"),
           ("AppProof", "C14_close_absent", "C14_close_absent", None),
           ("AppProof", "C14_close_last", "C14_close_last", "... and it is the last callback"),
@@ -132,7 +132,8 @@ SPEC = {
           ("AppProof", "C14_ret_true_rejected", "C14_ret_true_rejected", None),
           ("AppProof", "C14_ret_true_reported_partial", "C14_ret_true_reported", "a True return value always comes with an error report"),
           ("AppProof", "C14_ret_false_unreported", "C14_ret_false_unreported", None),
-          ("AppProof", "C14_clean", "C14_clean", "whatever happened: no socket, transport released, loop stopped, torn down")]),
+          ("AppProof", "C14_clean", "C14_clean", "whatever happened: no socket, transport released, loop stopped, torn down"),
+          ("AppGen", "close_args_gen", "C14_close_args_are_the_code", "CODE TIE: the arguments of on_close are the decisions and values regenerated from WebSocketApp._get_close_args (the reason as raw bytes; CPython's decode(errors='replace') of them is outside the model)")]),
  "C15": dict(title="C15 — automatic reconnection restores service after loss and stops on request.",
    imports="Base.Res Base.Bytes Spec.Frame Spec.Legal Spec.AppTrace Gen.GenAbnf Model.Recv Model.Conn Model.App Proofs.RecvSpec Proofs.ConnSpec Proofs.ConnProof Proofs.AppProof",
    items=[("AppProof", "C15_retry", "C15_retry", "every abnormal loss is followed by a new attempt until one succeeds; no on_close in between"),
